@@ -108,6 +108,28 @@ func (c *Ctx) c02CaseK(kind string, key, plain, honest, ct []byte, keyed bool) {
 		implC, _, _ := implStreamDecCopy(key, ct)
 		c.Oracle("io.Copy-and-Read-agree", implC == impl, "stream-copy-path-differs", in, "draining the reader with io.Copy gives "+clipN(implC, 80)+" but Read gives "+clipN(impl, 80))
 	}
+	// ... and a caller that sniffs a few bytes with Read and then hands the reader to io.Copy
+	if len(ct) < 3000 || c.evals%8 == 0 {
+		for _, first := range []int{1, 16, 512} {
+			r, _ := stream.NewReader(key, bytes.NewReader(ct))
+			head := make([]byte, first)
+			n, err := io.ReadFull(r, head)
+			got := append([]byte{}, head[:n]...)
+			if err == nil {
+				var w onlyWriter
+				_, err = io.Copy(&w, r)
+				got = append(got, w.b...)
+			} else if err == io.ErrUnexpectedEOF || err == io.EOF {
+				err = nil // ReadFull's own report of a short stream: the stream ended cleanly
+				_, e2 := r.Read(make([]byte, 1))
+				if e2 != io.EOF {
+					err = e2
+				}
+			}
+			implM := lst(hx(got), implOutcome(err))
+			c.Oracle("io.Copy-and-Read-agree", implM == impl, "stream-read-then-copy-differs", in, fmt.Sprintf("Read(%d) then io.Copy gives %s but Read alone gives %s", first, clipN(implM, 80), clipN(impl, 80)))
+		}
+	}
 	// ... and so must a caller with a buffer of several chunks
 	if len(ct) > chunkSize || c.evals%16 == 0 {
 		r, _ := stream.NewReader(key, bytes.NewReader(ct))
